@@ -510,6 +510,12 @@ class IH5Record(IH5Group):
     def mode(self) -> Literal["r", "r+"]:
         return "r+" if self._allow_patching else "r"
 
+    def flush(self) -> None:
+        """Flush the buffers of the current (uncommitted) container to disk, like h5py.File.flush."""
+        self._expect_open()
+        if self._has_writable:
+            self.__files__[-1].flush()
+
     def close(self, commit: bool = True) -> None:
         """Close all files that belong to this record.
 
